@@ -5,6 +5,7 @@ from . import codes, common
 from panqec.config import DECODERS
 from panqec.error_models import PauliErrorModel
 
+SYNDROME_DTYPES = [None, 'int64', 'uint8', 'uint64', 'int32']
 DECODE_TIMEOUT = 60       # seconds; a decode that never returns is a rejected event
 
 COMPLETE = {'MatchingDecoder', 'UnionFindDecoder', 'BeliefPropagationOSDDecoder'}
@@ -78,7 +79,11 @@ class Recorder:
 
     def decode(self, obj, syndrome):
         n = self.code.n
-        syn = np.array(syndrome, copy=True)
+        # the caller's array comes in the dtypes callers really use: what
+        # measure_syndrome returns (uint8), arrays reloaded from JSON or built
+        # with integer matrices (int64), np.uint as in the repository's tests
+        dt = SYNDROME_DTYPES[len(self.events) % len(SYNDROME_DTYPES)]
+        syn = np.array(syndrome, copy=True) if dt is None else np.array(syndrome, dtype=dt)
         before = syn.copy()
         tb = tables(self.em, self.code, self.cfg['p'])
         ev = {'kind': 'decode', 'obj': obj,
